@@ -50,10 +50,18 @@ pub fn be_parameter_value(input: &[u8], id: ParameterId) -> nom::IResult<&[u8], 
         ParameterValueType::ResetToken => {
             map(be_reset_token, ParameterValue::ResetToken).parse(input)
         }
-        ParameterValueType::ConnectionId => Ok((
-            &[],
-            ParameterValue::ConnectionId(ConnectionId::from_slice(input)),
-        )),
+        ParameterValueType::ConnectionId => {
+            if input.len() > crate::cid::MAX_CID_SIZE {
+                return Err(nom::Err::Error(nom::error::make_error(
+                    input,
+                    nom::error::ErrorKind::TooLarge,
+                )));
+            }
+            Ok((
+                &[],
+                ParameterValue::ConnectionId(ConnectionId::from_slice(input)),
+            ))
+        }
         ParameterValueType::PreferredAddress => {
             map(be_preferred_address, ParameterValue::PreferredAddress).parse(input)
         }
@@ -145,11 +153,22 @@ impl<Role, T: bytes::BufMut> WriteParameters<Role> for T {
 }
 
 fn handle_nom_error<F: Debug, E: Debug>(input: &[u8], nom_error: nom::Err<F, E>) -> Error {
-    assert!(
-        matches!(nom_error, nom::Err::Incomplete(..)),
-        "Only incomplete errors should occur, but {nom_error:?} happened for input: {input:?}"
-    );
-    Error::IncompleteParameterId(format!("incomplete parameter data for input: {input:?}"))
+    // The bytes come from the peer: whatever the parser complains about is a malformed
+    // transport parameter, never a reason to panic.
+    Error::IncompleteParameterId(format!(
+        "incomplete or malformed parameter data ({nom_error:?}) for input: {input:?}"
+    ))
+}
+
+fn check_value_consumed(id: ParameterId, remain: &[u8]) -> Result<(), Error> {
+    if remain.is_empty() {
+        Ok(())
+    } else {
+        Err(Error::IncompleteValue(
+            id,
+            format!("{} trailing bytes after the value", remain.len()),
+        ))
+    }
 }
 
 impl<R: IntoRole + RequiredParameters + Default> Parameters<R> {
@@ -172,7 +191,7 @@ impl<R: IntoRole + RequiredParameters + Default> Parameters<R> {
             ParameterId::belong_to(param_id, R::into_role())?;
             let (remain, param_value) = be_parameter_value(param_value, param_id)
                 .map_err(|nom_error| handle_nom_error(param_value, nom_error))?;
-            assert!(remain.is_empty(), "Parameter value should consume all data");
+            check_value_consumed(param_id, remain)?;
 
             parameters.set(param_id, param_value)?;
         }
@@ -205,7 +224,7 @@ impl ServerParameters {
             ParameterId::belong_to(param_id, Role::Server)?;
             let (remain, param_value) = be_parameter_value(param_value, param_id)
                 .map_err(|nom_error| handle_nom_error(param_value, nom_error))?;
-            assert!(remain.is_empty(), "Parameter value should consume all data");
+            check_value_consumed(param_id, remain)?;
 
             parameters.set(param_id, param_value)?;
         }
